@@ -134,7 +134,8 @@ def replay_match(mode, name, pats, flags, expect, exclude=None, describe=''):
         kwargs['exclude'] = exclude
     return {
         'describe': describe,
-        'steps': [{'as': 'r', 'call': api_name(mode, match_fn(mode)), 'args': [name, pats], 'kwargs': kwargs}],
+        # the answer of all matching entry points (direct call, compiled matcher, filter): see replayfn.matcher_accepts
+        'steps': [{'as': 'r', 'call': 'engine.replayfn.matcher_accepts', 'args': ['fn' if mode == 'fn' else 'gl', pats, name, kwargs]}],
         'assert': f'r == {expect!r}',
     }
 
